@@ -546,11 +546,44 @@ class Exec:
                 return None
             raise PyvcUnsupported(f"attribute store .{tgt.attr} (frame: mutation of a value not created here)")
         if isinstance(tgt, ast.Subscript):
+            arr_store = self.np_store(tgt, v, env, st)
+            if arr_store:
+                return None
             # store into a local dict literal under construction
             if isinstance(tgt.value, ast.Name) and isinstance(env.get(tgt.value.id), PyDict):
                 raise PyvcUnsupported("subscript store into local dict (needs slice value)")
             raise PyvcUnsupported("subscript store (frame: mutation)")
         raise PyvcUnsupported(f"assign target {type(tgt).__name__}")
+
+    def np_store(self, tgt, v, env, st):
+        """stores into a numpy array the activation created itself (np.full): table[i][j] = v and table[mask] = v, as
+        functional updates of the local binding; index expressions must evaluate without forking and be in range"""
+        def single(e_):
+            outs = list(self.expr(e_, env, st))
+            if len(outs) != 1 or isinstance(outs[0][0], Raised):
+                raise PyvcUnsupported("index expression of an array store forks or raises")
+            return outs[0][0]
+        base = tgt.value
+        if isinstance(base, ast.Name) and isinstance(env.get(base.id), Sym) and isinstance(env[base.id].ty, NpArr2Ty):
+            arr = env[base.id]
+            k = single(tgt.slice)
+            if isinstance(k, NpMask) and k.arr.e.eq(arr.e):
+                i_, j_ = z3.Int(fresh_name("mi")), z3.Int(fresh_name("mj"))
+                old = z3.Select(z3.Select(arr.e, i_), j_)
+                new = z3.Lambda([i_], z3.Lambda([j_], z3.If(old == coerce(k.value, RealT), coerce(v, RealT), old)))
+                env[base.id] = Sym(arr.ty, new)
+                return True
+            raise PyvcUnsupported("store of a whole row into a numpy array")
+        if (isinstance(base, ast.Subscript) and isinstance(base.value, ast.Name) and isinstance(env.get(base.value.id), Sym)
+                and isinstance(env[base.value.id].ty, NpArr2Ty)):
+            arr = env[base.value.id]
+            i_, j_ = coerce(single(base.slice), IntT), coerce(single(tgt.slice), IntT)
+            ok = mkbool(z3.And(i_ >= 0, i_ < arr.ty.n, j_ >= 0, j_ < arr.ty.m))
+            if not self.entails(st, ok):
+                raise PyvcUnsupported("array store whose indices are not provably in range")
+            env[base.value.id] = Sym(arr.ty, z3.Store(arr.e, i_, z3.Store(z3.Select(arr.e, i_), j_, coerce(v, RealT))))
+            return True
+        return False
 
     def destructure(self, v, n):
         if isinstance(v, (tuple, list)):
@@ -673,6 +706,15 @@ class Exec:
         # lists grown with .append in the body are loop variables too
         assigned |= {n.func.value.id for b in s.body for n in ast.walk(b) if isinstance(n, ast.Call)
                      and isinstance(n.func, ast.Attribute) and n.func.attr == "append" and isinstance(n.func.value, ast.Name)}
+        # local arrays written by subscript stores (table[i][j] = ...) are loop variables too
+        for b in s.body:
+            for n in ast.walk(b):
+                if isinstance(n, (ast.Assign, ast.AugAssign)):
+                    for t_ in (n.targets if isinstance(n, ast.Assign) else [n.target]):
+                        while isinstance(t_, ast.Subscript):
+                            t_ = t_.value
+                            if isinstance(t_, ast.Name):
+                                assigned.add(t_.id)
         tnames = {n.id for n in ast.walk(s.target) if isinstance(n, ast.Name)}
         assigned = sorted(v for v in assigned if v in env and v not in tnames)
         # literals get their declared loop type before the entry check
@@ -1241,6 +1283,8 @@ class Exec:
             return v_eq(l, r)
         if isinstance(op, ast.IsNot):
             return v_not(self.compare(ast.Is(), l, r, st))
+        if isinstance(op, ast.Eq) and isinstance(l, Sym) and isinstance(l.ty, NpArr2Ty):
+            return NpMask(l, r)
         if isinstance(op, ast.Eq):
             return self.py_eq(l, r)
         if isinstance(op, ast.NotEq):
@@ -1351,6 +1395,14 @@ class Exec:
                 return
             if isinstance(t, TupleTy):
                 yield v_index(v, k), st
+                return
+            if isinstance(t, (NpArr2Ty, NpRowTy)):
+                bound_ = t.n if isinstance(t, NpArr2Ty) else t.m
+                ke = coerce(k, IntT)
+                st_ok, raises = self.guard(st, mkbool(z3.And(ke >= 0, ke < bound_)), "IndexError", where)     # (negative indices not modelled)
+                yield from raises
+                if st_ok is not None:
+                    yield (Sym(NpRowTy(t.m), z3.Select(v.e, ke)) if isinstance(t, NpArr2Ty) else Sym(RealT, z3.Select(v.e, ke))), st_ok
                 return
             if isinstance(t, AbstractTy) and isinstance(k, str) and self.specs is not None \
                     and self.specs.iface_ret(t.base, f".[{k}]") is not None:
@@ -1641,6 +1693,11 @@ class Exec:
         st2 = st2.assume(z3.Length(its) == n,
                          z3.ForAll([i], z3.Implies(z3.And(0 <= i, i < n),
                                                    its[i] == tt.mk(ks[i], coll.ty.opt.val(z3.Select(coll.e, ks[i]))))))
+        # position of a key in the item sequence (keys are distinct): KPOS(items, k) is the one index holding k
+        kp = items_kpos_z3(its, k)
+        st2 = st2.assume(z3.ForAll([k], z3.Implies(mem(k), z3.And(kp >= 0, kp < n, its[kp] == tt.mk(k, coll.ty.opt.val(z3.Select(coll.e, k)))))),
+                         z3.ForAll([i], z3.Implies(z3.And(0 <= i, i < n), z3.And(items_kpos_z3(its, tt.get(its[i], 0)) == i,
+                                                                                 mem(tt.get(its[i], 0))))))
         yield Sym(SeqTy(tt), its), st2
 
     # ---- uninterpreted functions for abstract objects / libraries
